@@ -97,7 +97,17 @@ fn wait_for_child_done(fds: &[c_int], child_pid: pid_t) -> i32 {
                 // Child closed pipe without sending a byte - get the process exit_status
                 let mut status: libc::c_int = -1i32;
                 libc::waitpid(child_pid, &mut status, 0);
-                libc::WEXITSTATUS(status)
+                if libc::WIFEXITED(status) {
+                    libc::WEXITSTATUS(status)
+                } else if libc::WIFSIGNALED(status) {
+                    // The child was killed by a signal (crash, OOM killer, etc) before it told us
+                    // it was done. WEXITSTATUS of such a status is 0, so we mustn't use it. Follow
+                    // the shell convention of 128 + signal number.
+                    128 + libc::WTERMSIG(status)
+                } else {
+                    // waitpid failed or returned a status we don't understand.
+                    1
+                }
             }
         }
     }
